@@ -13,7 +13,7 @@ RULE = ("all 256 byte values as the last element of a script (opcodes the parser
         "output is OK:...); distinct by (op, arguments)")
 TRUSTED = c14.TRUSTED[:1]
 ASSUMPTIONS = ["native-stack exhaustion of the recursive parser / Vec<ScriptBit> clone and drop on very deep nesting is outside the Gallina model (recorded finding of C02/C09)",
-               "memory: OP_NUM2BIN and OP_LSHIFT allocate what their numeric operand asks for (up to 2 GiB / 256 MiB); operands above 100 000 are not generated",
+               "memory: OP_NUM2BIN and OP_LSHIFT allocate what their numeric operand asks for (up to 2 GiB / 256 MiB); shift counts above 4000 (on non-zero values) and NUM2BIN lengths above 5000 are not generated",
                "CHECKSIG-family opcodes are exercised without a transaction only (Interpreter::from_script): they return Err before touching the stack; their transaction-side behaviour is C15's"]
 
 push, num, op, ALPHA = c14.push, c14.num, c14.op, c14.ALPHA
@@ -72,17 +72,17 @@ def generate(rng, tier):
         for z in nums_around(n):
             add([push(x), push(num(z)), op(127)])
             add([push(num(z)), op(127)])
-    # NUM2BIN: length operand (top); never above 100000
+    # NUM2BIN: length operand (top); never above 5000
     for x in ["", "00", "80", "01", "81", "ff00", "ff80", "0100", "00000080", "0102030405", "BLOB", "ffffff7f", "ffffffff"]:
         n = 80 if x == "BLOB" else len(x) // 2
-        for z in [-(2 ** 31) + 1, -1, 0, 1, 2, n - 1, n, n + 1, 4, 5, 8, 127, 128, 255, 256, 1000, 70000, 2 ** 32, 2 ** 63]:
+        for z in [-(2 ** 31) + 1, -1, 0, 1, 2, n - 1, n, n + 1, 4, 5, 8, 127, 128, 255, 256, 1000, 5000, 2 ** 32, 2 ** 63]:
             add([push(x), push(num(z)), op(128)])
         for h in odd[:5]:
             add([push(x), push(h), op(128)])
     add([push(num(5)), op(128)])
-    # shifts: the library reads `count value OP_xSHIFT`; counts on non-zero values stay <= 100000
+    # shifts: the library reads `count value OP_xSHIFT`; counts on non-zero values stay <= 4000
     for v in ["", "00", "80", "01", "81", "ff00", "ff80", "0102030405", "BLOB"]:
-        for z in [-(2 ** 31) + 1, -1, 0, 1, 7, 8, 9, 63, 64, 65, 1000, 100000, 2 ** 32]:
+        for z in [-(2 ** 31) + 1, -1, 0, 1, 7, 8, 9, 31, 32, 33, 63, 64, 65, 127, 128, 129, 1000, 4000, 2 ** 32]:
             add([push(num(z)), push(v), op(152)])
             add([push(num(z)), push(v), op(153)])
             add([push(v), push(num(z)), op(152)])
@@ -116,8 +116,6 @@ def generate(rng, tier):
              "p" + "ab" * 76, "p" + "ab" * 300, "d76." + "ab" * 300, "o81,o81,o81,o172", "o81,o174"]
     for t in trees:
         addt(t)
-        cases.append(("interp.runbits", [t]))
-        cases.append(("interp.tracebits", [t]))
     for depth in ([10, 60] if tier == "quick" else [10, 60, 200]):
         # every level: condition push, IF/NOTIF with a 2-bit pass branch (the inner level) and a 1-bit else branch
         def build(d):
